@@ -743,6 +743,10 @@ def check(ctx, rep):
     rule_registry_order(ctx, rep)
     rule_sast_only_source(ctx, rep)
     rule_namespace_frozen(ctx, rep)
+    # an empty project listing ends apply_codemods before the loop: every selected codemod is then reported without having run
+    from .c05 import rule_enum_siblings
+
+    rule_enum_siblings(ctx, rep)
     from .c15 import rule_one_result
 
     rule_one_result(ctx, rep)
